@@ -78,22 +78,30 @@ WINDOWS = [(1, 1), (2, 1), (3, 2), (2, 3)]          # (time window, mean reversi
 
 def fcn_cases(tier, seed):
     rng = random.Random(sub_seed(seed, "fcn"))
-    grid = list(itertools.product([-1, 0, 1], [-1, 0, 1], [-1, 0, 1], [-2, -1, 0, 1, 2], WEIGHTS, WINDOWS, [0.0, 0.125], [0, 1]))
+    # early: the market is younger than the configured window (the window actually used is min(time, window))
+    grid = list(itertools.product([-1, 0, 1], [-1, 0, 1], [-1, 0, 1], [-2, -1, 0, 1, 2], WEIGHTS, WINDOWS, [0.0, 0.125], [0, 1], [0, 1, 2]))
     if tier == "quick":
-        grid = rng.sample(grid, 700)
+        grid = rng.sample(grid, 900)
     out = []
-    for a, af, ap, k, (wF, wC, wN), (tw, tr), margin, other_first in grid:
-        t1 = wF * (af - a) * tw
+    for a, af, ap, k, (wF, wC, wN), (W, tr), margin, other_first, early in grid:
+        T = W + 1 if early == 0 else max(0, W - early)      # market time at the decision
+        tw = min(T, W)                                       # window actually used
+        if tw == 0 and ap != a:
+            continue                                         # no past price to differ from at time 0
+        twe = max(tw, 1)             # 1 / max(window used, 1) in the code
+        t1 = wF * (af - a) * twe
         t2 = wC * (a - ap) * tr
-        t3 = wN * k * tr * tw
+        t3 = wN * k * tr * twe
         if t1 + t2 + t3 == 0 and not (t1 == 0 and t2 == 0 and t3 == 0):
             continue            # exact cancellation: the float sign is a rounding artefact (excluded from the table)
         P, F, Pp = 100.0 * 2 ** a, 100.0 * 2 ** af, 100.0 * 2 ** ap
         sim = Simulator(prng=random.Random(0))
-        T = tw + 1                       # so that min(time, window) = window and time - window >= 0
-        prices = [Pp] * (T - tw + 1) + [P] * (tw - 1) + [P]
-        prices = prices[:T] + [P]
-        prices[T - tw] = Pp
+        prices = [Pp] * (T + 1)
+        prices[T] = P
+        for u in range(T - tw + 1, T):
+            prices[u] = P
+        if tw > 0:
+            prices[T - tw] = Pp
         mkts = []
         if other_first:
             mkts.append(market_with_history(sim, 0, "other", [300.0] * (T + 1), 300.0))
@@ -101,7 +109,7 @@ def fcn_cases(tier, seed):
         mkts.append(m)
         ag = FCNAgent(agent_id=7, prng=StubGauss(k), simulator=sim, name="fcn")
         ag.setup(settings={"cashAmount": 1000, "assetVolume": 10, "fundamentalWeight": wF, "chartWeight": wC, "noiseWeight": wN,
-                           "noiseScale": LN2, "timeWindowSize": tw, "orderMargin": margin, "marginType": "fixed",
+                           "noiseScale": LN2, "timeWindowSize": W, "orderMargin": margin, "marginType": "fixed",
                            "meanReversionTime": tr}, accessible_markets_ids=[m.market_id])
         st, orders = call(ag, mkts)
         # independent evaluation of the documented formula
@@ -109,15 +117,15 @@ def fcn_cases(tier, seed):
         c_lr = (1.0 / max(tw, 1)) * math.log(P / Pp)
         n_lr = LN2 * k
         e_lr = (wF * f_lr + wC * c_lr + wN * n_lr) / (wF + wC + wN)
-        exp_px = P * math.exp(e_lr * tw)
+        exp_px = P * math.exp(e_lr * W)
         pok = True
         for o in orders:
             want = exp_px * (1 - margin) if o.is_buy else exp_px * (1 + margin)
             pok = pok and abs(o.price - want) <= 1e-12 * abs(want)
             # shaded by the margin: a buy is quoted at or below the expected price, a sell at or above
             pok = pok and ((o.price <= exp_px * (1 + 1e-12)) if o.is_buy else (o.price >= exp_px * (1 - 1e-12)))
-        out.append({"c": "fcn", "aid": 7, "wF": wF, "wC": wC, "wN": wN, "af": af, "a": a, "ap": ap, "k": k, "tr": tr, "tw": tw,
-                    "mkt": m.market_id, "ttl": tw, "out": st, "ords": summarize(ag, orders), "pok": bool(pok)})
+        out.append({"c": "fcn", "aid": 7, "wF": wF, "wC": wC, "wN": wN, "af": af, "a": a, "ap": ap, "k": k, "tr": tr, "tw": twe,
+                    "mkt": m.market_id, "ttl": W, "W": W, "t": T, "out": st, "ords": summarize(ag, orders), "pok": bool(pok)})
     return out
 
 
